@@ -21,6 +21,7 @@ FOCUS = {
     "C14": ["at", "at", "mixed"],
     "C09": ["hook", "deferred", "lifecycle", "mixed"],
     "C02": ["lifecycle", "lifecycle", "mixed"],
+    "C04": ["deferred", "deferred", "mixed"],
 }
 COUNTS = {"quick": 160, "thorough": 3000}
 SIM = {"quick": 100, "thorough": 1200}
@@ -161,6 +162,7 @@ NONTRIVIAL = {
     "C14": lambda tr, rec: any(e["ev"] == "at" and e["in"]["acts"] and e["pst"]["active"]
                                for e in tr["ev"]),
     "C09": lambda tr, rec: rec["cnt"]["open"] > 0,
+    "C04": lambda tr, rec: rec["cnt"]["c04b"] > 0 and rec["cnt"]["open"] > 0,
     "C02": lambda tr, rec: sum(1 for e in tr["ev"] if e["ev"] == "pev"
                                and e["name"] == "PrintStarted") >= 2,
 }
@@ -177,6 +179,9 @@ RULES = {
     "C06": "plugin histories with deferred codes; non-trivial = at least one command deferred",
     "C02": "plugin histories with several prints (regions cleared by file selection or at print "
            "end in between); non-trivial = at least two prints",
+    "C04": "plugin histories whose extended-code table comes from the settings (incl. inert "
+           "entries for codes the plugin handles itself); non-trivial = an episode and an "
+           "extruding move outside",
     "C09": "plugin histories (scripts and deferred codes configured through the settings, "
            "incl. comment-only script lines); non-trivial = at least one episode opened",
     "C14": "plugin histories whose @-command action table comes from the plugin settings "
